@@ -38,7 +38,7 @@ PROPS = {
         level_note="Trusted: the reference evaluator and JSON reader in harness/ref, rapid, the Go toolchain. Domain exclusions are exactly those of the property's quantifier and are counted in the evidence.",
     ),
     "C05": dict(
-        pkg="c05", units=[rapid("TestProp", 36000, 150000), rapid("TestPropEmpty", 24000, 100000), rapid("TestPropMerge", 30000, 150000), fuzz("FuzzOrder", 60)], assumptions=COMMON_ASSUME,
+        pkg="c05", units=[rapid("TestProp", 36000, 150000), rapid("TestPropEmpty", 24000, 100000), rapid("TestPropMerge", 30000, 150000), rapid("TestPropRepeat", 20000, 100000), fuzz("FuzzOrder", 60)], assumptions=COMMON_ASSUME,
         technique="property-based testing (rapid): ordered, literal-exact comparison with the reference evaluator; order-validity predicate for MergePatch; coverage-guided native fuzzing of the same oracle over raw bytes in the thorough tier",
         level_text="Generated-input search: Apply outputs are compared member-order- and literal-exactly with the ordered reference result (the model implements the stated order rules), the empty patch must reproduce the input in any spelling, and MergePatch outputs must satisfy the order predicate and carry every number literal. Exploration over generated documents with exotic literals and busy objects; no proof.",
         level_note="Trusted: harness/ref (ordered tree, literal-preserving reader), rapid, Go toolchain. Order among members newly added by MergePatch is unspecified and not asserted.",
